@@ -1153,6 +1153,9 @@ class BaseGateway:
         self._strconfig = (Unserializer.py2str_as_py3str, Unserializer.py3str_as_py2str)
         self._channelfactory = ChannelFactory(self, _startcount)
         self._receivelock = self.execmodel.RLock()
+        # serializes the writing of whole message frames, re-entrant because
+        # Channel.__del__ may send from within a thread that is just sending
+        self._sendlock = self.execmodel.RLock()
         # globals may be NONE at process-termination
         self.__trace = trace
         self._geterrortext = geterrortext
@@ -1206,7 +1209,8 @@ class BaseGateway:
     def _send(self, msgcode: int, channelid: int = 0, data: bytes = b"") -> None:
         message = Message(msgcode, channelid, data)
         try:
-            message.to_io(self._io)
+            with self._sendlock:
+                message.to_io(self._io)
             self._trace("sent", message)
         except (OSError, ValueError) as e:
             self._trace("failed to send", message, e)
